@@ -67,6 +67,12 @@ KINDS = [
     ('redirect', 'GET', '/redirect', {}),
     ('form', 'POST', '/form', {'body': b'a=1&a=2', 'ctype': 'application/x-www-form-urlencoded'}),
     ('upload', 'POST', '/upload', {'body': MP_BODY[:8], 'ctype': 'multipart/form-data; boundary=BND'}),
+    # a static file served plainly, with a Range and with If-Modified-Since; literal and wildcard sibling routes
+    ('static', 'GET', '/static/f.txt', {}),
+    ('static-range', 'GET', '/static/f.txt', {'headers': {'Range': 'bytes=2-5'}}),
+    ('static-ims', 'GET', '/static/f.txt', {'headers': {'If-Modified-Since': 'Fri, 01 Jan 2100 00:00:00 GMT'}}),
+    ('user-me', 'GET', '/user/me', {}),
+    ('user-7', 'GET', '/user/7', {}),
     # requests whose path / query string changes with every repetition ({i} = repetition counter)
     ('anonvar', 'GET', '/assets/f{i}.css', {}),
     ('404var', 'GET', '/nope/{i}', {}),
@@ -74,6 +80,25 @@ KINDS = [
     ('namedvar', 'GET', '/item/{i}', {}),
 ]
 NK = len(KINDS)
+
+
+_sroot = {}
+
+
+def _static_root():
+    import os
+    import tempfile
+    if 'd' not in _sroot or not os.path.isdir(_sroot['d']):
+        d = tempfile.mkdtemp(prefix='c09.', dir=os.environ.get('VERIF_WORK') or None)
+        p = os.path.join(d, 'f.txt')
+        with open(p, 'wb') as f:
+            f.write(bytes(range(48, 48 + 40)))
+        os.utime(p, (1_600_000_000, 1_600_000_000))
+        _sroot['d'] = d
+        import atexit
+        import shutil
+        atexit.register(shutil.rmtree, d, True)
+    return _sroot['d']
 
 
 def fresh_app():
@@ -118,6 +143,16 @@ def fresh_app():
     app.route('/redirect', 'GET', redir)
     app.route('/form', 'POST', form)
     app.route('/upload', 'POST', upload)
+    static_root = _static_root()
+
+    def static(name):
+        r = om.static_file(name, static_root)
+        if 'Date' in r.headers:
+            del r.headers['Date']           # wall-clock: not a function of the request
+        return r
+    app.route('/static/<name>', 'GET', static)
+    app.route('/user/me', 'GET', lambda: 'me')
+    app.route('/user/<uid>', 'GET', lambda uid: 'profile of ' + uid)
     app.route('/assets/<:path>', 'GET', ok)
     app.route('/item/<n:int>', 'GET', lambda n: 'item')
     return om, app
